@@ -1,6 +1,7 @@
 package main
 
 import (
+	"go/types"
 	"encoding/json"
 	"flag"
 	"fmt"
@@ -82,6 +83,8 @@ func main() {
 		os.Exit(cmdCheck(os.Args[2:]))
 	case "list":
 		os.Exit(cmdList(os.Args[2:]))
+	case "names":
+		os.Exit(cmdNames(os.Args[2:]))
 	default:
 		fmt.Fprintln(os.Stderr, "unknown sub-command", os.Args[1])
 		os.Exit(2)
@@ -437,4 +440,57 @@ func diagnoseConjuncts(dir string, results []*funcResult) {
 			}
 		}
 	}
+}
+
+// cmdNames prints, for each package pattern, the functions with bodies in the form contract files use
+// ("pkgpath<TAB>RelString<TAB>has-contract"); used by tools/sweep.py.
+func cmdNames(args []string) int {
+	ck := newChecker(envOr("RELIC_REPO", "/repo"), envOr("RELIC_VERIF", "/verif"))
+	if err := ck.loadSpecs(); err != nil {
+		fmt.Fprintln(os.Stderr, "SPEC:", err)
+		return 2
+	}
+	if err := ck.load(args); err != nil {
+		fmt.Fprintln(os.Stderr, err)
+		return 2
+	}
+	for _, path := range sortedKeys(ck.pkgs) {
+		sp := ck.ssaPkgByPath(path)
+		if sp == nil {
+			continue
+		}
+		seen := map[string]bool{}
+		var emit func(f *ssa.Function)
+		emit = func(f *ssa.Function) {
+			if f == nil || len(f.Blocks) == 0 || f.Pkg != sp || f.Synthetic != "" || seen[f.String()] {
+				return
+			}
+			seen[f.String()] = true
+			if f.Name() == "init" || strings.HasPrefix(f.Name(), "init#") {
+				return
+			}
+			rel := f.RelString(sp.Pkg)
+			_, has := ck.contracts[fullName(path, rel)]
+			fmt.Printf("%s\t%s\t%v\n", path, rel, has)
+		}
+		var names []string
+		for n := range sp.Members {
+			names = append(names, n)
+		}
+		sort.Strings(names)
+		for _, n := range names {
+			switch m := sp.Members[n].(type) {
+			case *ssa.Function:
+				emit(m)
+			case *ssa.Type:
+				for _, t := range []types.Type{m.Type(), types.NewPointer(m.Type())} {
+					ms := ck.prog.MethodSets.MethodSet(t)
+					for i := 0; i < ms.Len(); i++ {
+						emit(ck.prog.MethodValue(ms.At(i)))
+					}
+				}
+			}
+		}
+	}
+	return 0
 }
